@@ -173,7 +173,7 @@ def run(res, tier, seed, proofs_ok):
                 'non-trivial = at least 3 tree nodes; distinct by whole case')
 
     # ---- 1. known-finding witnesses and corpus ----
-    D.run_witnesses(res)
+    D.run_witnesses(res, random.Random(seed + 1))
 
     # ---- 2/3. pipeline tie + oracle ----
     n_valid = 500 if quick else 6000
